@@ -331,6 +331,68 @@ def gdt_reconstruct(ctx):
     ctx.bound("generation time every millisecond 2004-11..2039-09, age 0..65000 ms; the division by 65536 is exact in binary64 (power of two), evaluated over the reals")
 
 
+@vc("C11", "E2-receiver-stamps-the-reconstructed-generation-time")
+def gdt_reception(ctx):
+    """CAMReceptionManagement.reception_callback: the CAM handed to the LDM and to the applications carries utc_timestamp = the absolute
+    generation time reconstructed from generationDeltaTime and the receiver's clock (Unix milliseconds)"""
+    from flexstack.facilities.ca_basic_service.cam_reception_management import CAMReceptionManagement
+    I = make("int")
+    tgen = I.int_var("generation_unix_ms", 1100000000000, 2200000000000)
+    age = I.int_var("age_ms", 0, 65000)
+    sub = I.int_var("clock_sub_ms_in_us", 0, 999)          # the receiver's clock is not aligned to the millisecond
+    I.stubs[TimeService.time] = lambda it, a, k, pc: (z3.ToReal(tgen + age) * 1000 + z3.ToReal(sub)) / 1000000
+    gdt = (tgen - ITS_EPOCH_MS + ELAPSED_MILLISECONDS) % 65536
+    cam = SDict([(TRUE, "header", SDict([(TRUE, "stationId", 7, False)]), False), (TRUE, "cam", SDict([(TRUE, "generationDeltaTime", gdt, False)]), False)])
+    coder, ldm, app = Opaque("coder"), Opaque("ca_basic_service_ldm"), Opaque("application_callback")
+    got = []
+    I.stubs[id(coder)] = lambda it, name, a, k, pc: cam
+    I.stubs[id(ldm)] = lambda it, name, a, k, pc: got.append((pc, "ldm", a[0]))
+
+    def app_cb(x):
+        raise AssertionError("never executed")
+    I.stubs[app_cb] = lambda it, a, k, pc: got.append((pc, "application", a[0]))
+    log = logger(I)
+    o = Obj(CAMReceptionManagement, dict(logging=log, cam_coder=coder, btp_router=None, ca_basic_service_ldm=ldm, _application_callbacks=SList([(TRUE, app_cb)])))
+    ind = Opaque("btp_indication")
+    ind.attrs = {"data": b"\x00"}
+    I.call_function(CAMReceptionManagement.reception_callback, [o, ind])
+    exc = cond_or(c for c, _ in I.raises)
+    vars_ = {"generation_unix_ms": tgen, "age_ms": age, "clock_sub_ms_in_us": sub}
+
+    def replay(vals):
+        from unittest import mock
+        t, a_, u = vals["generation_unix_ms"], vals["age_ms"], vals["clock_sub_ms_in_us"]
+        msec = (t - ITS_EPOCH_MS + ELAPSED_MILLISECONDS) % 65536
+        coder_, ldm_ = mock.Mock(), mock.Mock()
+        coder_.decode.return_value = {"header": {"stationId": 7}, "cam": {"generationDeltaTime": msec}}
+        seen = []
+        rm = CAMReceptionManagement(coder_, mock.Mock(), ldm_)
+        rm.add_application_callback(lambda c: seen.append(("application", c.get("utc_timestamp"))))
+        ldm_.add_provider_data_to_ldm.side_effect = lambda c: seen.append(("ldm", c.get("utc_timestamp")))
+        # a clock value whose product with 1000 truncates to the intended millisecond (binary64 rounding of the product is outside the claim)
+        now_s = (t + a_) / 1000.0 + u / 1e6
+        if int(now_s * 1000) != t + a_:
+            now_s = (t + a_ + 0.5) / 1000.0
+        with mock.patch.object(TimeService, "time", staticmethod(lambda: now_s)):
+            rm.reception_callback(mock.Mock(data=b"\x00"))
+        bad = [f"{who} got utc_timestamp {v}" for who, v in seen if v != t] + ([] if len(seen) == 2 else [f"{len(seen)} of 2 consumers reached"])
+        return bool(bad), f"CAM generated at {t} ms (generationDeltaTime {msec}) received {a_} ms later: " + ("; ".join(bad) or "stamped with its generation time")
+    ctx.witness("reception-reach-both-consumers", I, z3.And(z3.Not(exc), *[c for c, _, _ in got], z3.BoolVal(len(got) == 2), age > 1000), vars=vars_,
+                validate=lambda v: not replay(v)[0])
+    ctx.prove("reception-no-exception", I, exc, vars=vars_, replay=replay)
+    bad = []
+    for c, who, x in got:
+        n0 = len(I.raises)
+        v = path_get(I, x, "utc_timestamp", pc=c)
+        del I.raises[n0:]
+        bad.append(z3.And(c, z3.Not(num_eq(I, v, tgen))))
+    ctx.prove("reception-stamps-the-generation-time", I, z3.Or(*bad) if bad else TRUE, vars=vars_, replay=replay,
+              desc="for every generation time 2004..2039, every age 0..65 s and every sub-millisecond clock phase, the CAM given to the LDM and to each application callback "
+                   "carries utc_timestamp = its generation time: the reconstruction is fed the receiver's Unix time in milliseconds")
+    ctx.bound("one received CAM (decoded structure from a stub coder); real-valued clock, int(time * 1000) exact")
+    ctx.stub("CAM coder returns the decoded structure; LDM adapter and application callback record their argument")
+
+
 # ---------------------------------------------------------------------------------------------- E1 emergency-vehicle DENM position
 @vc("C11", "E1-denm-event-position")
 def denm_position(ctx):
